@@ -35,8 +35,9 @@ What is NOT a function of this interface in the Rust code, and how it is treated
   lists here and are compared as finite maps (lookup by id);
 * `first_ten_failures` / `first_ten_errors` are *truncated in processing order* (`len() <= 10` is tested
   before every push, so up to eleven rules get an entry and the eleventh keeps only its first example):
-  transcribed as is (`record`), and proved order-independent only when at most ten rules fail / error;
-  the three counters are never truncated;
+  transcribed as is (`record`).  Since 9993ef8 `create_result` visits the rules in id order, so the processing
+  order – and with it the truncation – is a function of the rule set (`testExamples`); the code before the
+  repair is kept as `testExamplesUnordered` (order-independent only when at most ten rules fail / error);
 * `match_traces` (`router.trace_request`) exposes the internal forest (buckets emptied by `batch_remove`
   survive, `count` fields differ): `Tr` is abstract and only a canonical projection of it is compared;
 * `unit_ids_seen` is re-inserted in `HashMap` order by `squash_with_target_unit_traces`: `UT` / `Core` are
@@ -62,6 +63,9 @@ structure View (Rule Req Cfg Tr : Type) where
 structure Pipe (Rule Req Cfg Ex Id UId UT Core U M Dom : Type) where
   /-- `rule.id` (also the key of `router.routes()`) -/
   ruleId : Rule → Id
+  /-- `a.cmp(b) != Greater` on ids (`String`'s `Ord`: byte-wise), the order `create_result` of test-examples
+  sorts the routes with since 9993ef8 -/
+  idLe : Id → Id → Bool
   /-- `rule.examples` -/
   examples : Rule → Option (List Ex)
   /-- `Request::from_example(&router.config, example)`; the error is `e.to_string()` -/
@@ -145,9 +149,11 @@ inductive Outcome (Ex Id UId U M : Type) where
   /-- only `example_count` incremented -/
   | passed
 
-/-- The verdict of `test_example` (everything except the updates of `results`). -/
-def outcome (P : Pipe Rule Req Cfg Ex Id UId UT Core U M Dom) (S : View Rule Req Cfg Tr)
-    (maxHops : Nat) (dom : Dom) (r : Rule) (e : Ex) : Outcome Ex Id UId U M :=
+/-- The verdict of `test_example` (everything except the updates of `results`), with the redirect-chain
+analysis as a parameter `lp` (`RedirectionLoop::from_example(router, max_hops, example, project_domains)`; the
+correspondence instance feeds the observed chains, the theorems use `loop`). -/
+def outcomeWith (P : Pipe Rule Req Cfg Ex Id UId UT Core U M Dom) (S : View Rule Req Cfg Tr)
+    (lp : Ex → LoopOut U M) (r : Rule) (e : Ex) : Outcome Ex Id UId U M :=
   match P.expected e with
   | none => .skipped
   | some exp =>
@@ -160,10 +166,15 @@ def outcome (P : Pipe Rule Req Cfg Ex Id UId UT Core U M Dom) (S : View Rule Req
       if (P.mustMatch e && (!notApplied.isEmpty || !applied)) || (!P.mustMatch e && applied) then
         .failed ⟨e, P.utRuleIds ut, P.utUnitIds ut, notApplied, none⟩
       else
-        let lp := loop P S maxHops dom e
-        if lp.2 = some Err.tooManyHops ∨ lp.2 = some Err.loop then
-          .failed ⟨e, P.utRuleIds ut, P.utUnitIds ut, notApplied, some lp⟩
+        let l := lp e
+        if l.2 = some Err.tooManyHops ∨ l.2 = some Err.loop then
+          .failed ⟨e, P.utRuleIds ut, P.utUnitIds ut, notApplied, some l⟩
         else .passed
+
+/-- The verdict of `test_example`. -/
+def outcome (P : Pipe Rule Req Cfg Ex Id UId UT Core U M Dom) (S : View Rule Req Cfg Tr)
+    (maxHops : Nat) (dom : Dom) (r : Rule) (e : Ex) : Outcome Ex Id UId U M :=
+  outcomeWith P S (loop P S maxHops dom) r e
 
 /-- `map.entry(id).or_insert_with(|| New(rule)).items.push(x)` on an association list. -/
 def pushAt {α : Type} (id : Id) (r : Rule) (x : α) :
@@ -201,15 +212,41 @@ def applyOutcome (P : Pipe Rule Req Cfg Ex Id UId UT Core U M Dom) (st : TestOut
   | .passed => { st with exampleCount := st.exampleCount + 1 }
 
 /-- the inner `for example in examples` of `create_result` -/
+def testRuleWith (P : Pipe Rule Req Cfg Ex Id UId UT Core U M Dom) (S : View Rule Req Cfg Tr)
+    (lp : Ex → LoopOut U M) (st : TestOut Rule Ex Id UId U M) (r : Rule) : TestOut Rule Ex Id UId U M :=
+  match P.examples r with
+  | none => st
+  | some exs => exs.foldl (fun st e => applyOutcome P st r e (outcomeWith P S lp r e)) st
+
 def testRule (P : Pipe Rule Req Cfg Ex Id UId UT Core U M Dom) (S : View Rule Req Cfg Tr)
     (maxHops : Nat) (dom : Dom) (st : TestOut Rule Ex Id UId U M) (r : Rule) :
     TestOut Rule Ex Id UId U M :=
-  match P.examples r with
-  | none => st
-  | some exs => exs.foldl (fun st e => applyOutcome P st r e (outcome P S maxHops dom r e)) st
+  testRuleWith P S (loop P S maxHops dom) st r
 
-/-- `TestExamplesOutput::create_result(router, max_hops, project_domains)`. -/
+/-- insertion into an id-sorted list -/
+def insertById (P : Pipe Rule Req Cfg Ex Id UId UT Core U M Dom) (r : Rule) : List Rule → List Rule
+  | [] => [r]
+  | x :: t => if P.idLe (P.ruleId r) (P.ruleId x) then r :: x :: t else x :: insertById P r t
+
+/-- `routes.sort_by(|(a, _), (b, _)| a.cmp(b))`: the routes in id order (ids are distinct keys of a map, so
+every sorting algorithm gives this list; an insertion sort, so that it evaluates in the kernel). -/
+def sortById (P : Pipe Rule Req Cfg Ex Id UId UT Core U M Dom) (routes : List Rule) : List Rule :=
+  routes.foldr (insertById P) []
+
+/-- `TestExamplesOutput::create_result(router, max_hops, project_domains)` as REPAIRED by 9993ef8: the rules
+are visited in id order, so the result (which failures are kept in `first_ten_*`) does not depend on the
+iteration order of the HashMap. -/
+def testExamplesWith (P : Pipe Rule Req Cfg Ex Id UId UT Core U M Dom) (S : View Rule Req Cfg Tr)
+    (lp : Ex → LoopOut U M) : TestOut Rule Ex Id UId U M :=
+  (sortById P S.routes).foldl (testRuleWith P S lp) TestOut.init
+
 def testExamples (P : Pipe Rule Req Cfg Ex Id UId UT Core U M Dom) (S : View Rule Req Cfg Tr)
+    (maxHops : Nat) (dom : Dom) : TestOut Rule Ex Id UId U M :=
+  testExamplesWith P S (loop P S maxHops dom)
+
+/-- For the record: `create_result` BEFORE 9993ef8 (`for (id, route) in router.routes()`): the rules in HashMap
+order.  Its counters are order-independent, its `first_ten_*` maps only when at most ten rules contribute. -/
+def testExamplesUnordered (P : Pipe Rule Req Cfg Ex Id UId UT Core U M Dom) (S : View Rule Req Cfg Tr)
     (maxHops : Nat) (dom : Dom) : TestOut Rule Ex Id UId U M :=
   S.routes.foldl (testRule P S maxHops dom) TestOut.init
 
